@@ -85,7 +85,17 @@ EnvWrite(v) ==      \* a demand write through the Buffer / to the FactoryPool
     /\ nenv' = nenv + 1
     /\ UNCHANGED <<scn, pool, prev, called, now, nextw, I, steps, dh, raised, fcount>>
 
-PNext == \/ Tick \/ Wake
+\* one of the children a FactoryPool has spawned gives up on its own (its demand drops to 0
+\* while nothing the FactoryPool itself reads - its supply, its demand - changes): the next
+\* adjustment replaces it
+EnvQuit ==
+    /\ nenv < MaxEnv /\ scn.kind = "factory" /\ fcount >= 2
+    /\ fcount' = fcount - 1
+    /\ act' = [name |-> "Quit", iv |-> 0, attr |-> "", v |-> 0]
+    /\ nenv' = nenv + 1
+    /\ UNCHANGED <<scn, pool, prev, called, now, nextw, I, steps, dh, raised, pending>>
+
+PNext == \/ Tick \/ Wake \/ EnvQuit
          \/ \E v \in Supplies : IsCtl /\ EnvSet("supply", v)
          \/ \E v \in Demands : scn.kind # "factory" /\ EnvSet("demand", v)
          \/ \E v \in Fits : IsCtl /\ (EnvSet("util", v) \/ EnvSet("alloc", v))
